@@ -1126,7 +1126,19 @@ pub fn gen_c18(run: &mut Run, seed: u64, thorough: bool) {
             }
         }
         // canonical form: asset contract and every custom token
+        // a service-deployed token that is ALSO registered as a canonical token: one address, two ids — the canonical remote
+        // deployment announces the canonical id
+        let mut both: Vec<(Addr, &str)> = vec![];
+        {
+            let mut salt2 = salt;
+            salt2[5] = 0xb0;
+            if let Some((_, tok_b)) = i.deploy(&users[0], &salt2, b"Both", b"BTH", 9, 10, None, &users[0].tok(), "setup-deploy-both") {
+                i.register(&tok_b, "register-service-token-as-canonical");
+                both.push((tok_b, "service-token-registered-as-canonical"));
+            }
+        }
         let mut canon_tokens: Vec<(Addr, &str)> = vec![(canon.clone(), "asset-contract"), (Addr::c(150), "unregistered-token"), (tok_n.clone(), "service-token-not-registered-as-canonical")];
+        canon_tokens.extend(both.iter().cloned());
         canon_tokens.extend(customs.iter().cloned());
         for (tk, tcl) in &canon_tokens {
             for (dest, dcl) in &dests {
